@@ -27,6 +27,7 @@ FAILING = [
     (("asg", assign(("var", "hv.I64"), "=", ("math", mint(5)))), None, 0),
     (("asg", assign(("var", "h.Nope"), "=", ("math", mint(5)))), None, 0),
     (("call", call("func", "Boom", [])), None, 1),
+    (("call", call("func", "BigBoom", [])), None, 1),      # fails last, with an 8 MiB panic value: slow to record
     (("call", call("func", "Nope", [])), None, 1),
     (("call", call("method", "h.Boom", [])), None, 2),
     (("call", call("three", "h.PSub.Nope", [])), None, 3),
@@ -39,7 +40,7 @@ def fresh(ch):
 
 
 def inject():
-    return [inj_func("Mark"), inj_func("IdI64"), inj_func("Boom"), inj_func("Hold"), inj_struct("h"), inj_map("mp", "s", "i64", []),
+    return [inj_func("Mark"), inj_func("IdI64"), inj_func("Boom"), inj_func("BigBoom"), inj_func("Hold"), inj_struct("h"), inj_map("mp", "s", "i64", []),
             inj_val("lim", tv_int("i64", 10)), dict(inj_struct("h"), name="hv", kind="structv")]
 
 
@@ -117,7 +118,7 @@ def canonical_calls(c, o):
 
 
 RULE = ("conc blocks of 0-6 children drawn from 9 non-failing shapes (assignments to a local, a struct field, a map entry, an assignment whose right-hand side calls a function; function, method and three-level calls) (also the same child written two or three times), plus at most one failing child "
-        "(undefined name, assignment to a name or struct injected by value or to a missing field, panicking function or method, missing function or method), shuffled; each block twice: plain, and with an extra child Hold(\"gate\") that the adversary blocks until nothing else happens for a quiet period; "
+        "(undefined name, assignment to a name or struct injected by value or to a missing field, panicking function or method — one of them late and with an 8 MiB panic value —, missing function or method), shuffled; each block twice: plain, and with an extra child Hold(\"gate\") that the adversary blocks until nothing else happens for a quiet period; "
         "`Mark(1)` precedes and `Mark(99)` follows the block, the rule returns values written by the children; checked by the driver on the global call order: every child's call exactly once, all of them (and the held child's release) before Mark(99), "
         "Mark(99) absent when the block fails; checked inside Coq (after rewriting the block's calls into spawn order): outcome class, cited positions, returned value, host objects afterwards; "
         "distinct non-trivial = blocks with at least two children")
